@@ -647,9 +647,8 @@ def cancel_oracle(obs, x, how, not_started=False, targeted=True):
         elif x.kind == 'delete':
             final_task = 'DeleteObjectTask'
         ce = [e for e in obs.events if e['kind'] == 'cancel.end']
-        single = len([y for y in obs.xfers if y.kind == x.kind]) == 1
-        if final_task and ce and targeted and single:
-            fs = [e['n'] for e in obs.events if e['kind'] == 'exec.start' and e.get('task') == final_task]
+        if final_task and ce and targeted:
+            fs = [e['n'] for e in obs.events if e['kind'] == 'exec.start' and e.get('task') == final_task and e.get('tid') == x.idx]
             if fs and min(fs) > ce[0]['n']:
                 out.append(V(f'{x.label}: the cancel call ({how}) had returned before the final task {final_task} was even started, yet the '
                              f'transfer ran on and reported success', **mech, sym='cancel-ineffective'))
